@@ -377,15 +377,21 @@ func c05PodRequests(p *corev1.Pod) corev1.ResourceList {
 // c05Dims: the reservation's reserved dimensions, from the reservation object. The reserved resources are the
 // status allocatable once the reservation is Available on a node, otherwise the template's request. For the
 // Restricted policy the restricted-options annotation narrows them to the listed resources ("if no resources
-// configured, by default the resources equal all reserved resources by the Reservation"). ok=false when the
-// documentation does not determine the dimensions (options that name no reserved resource).
-func c05Dims(res *schedulingv1alpha1.Reservation) (dims map[corev1.ResourceName]bool, ok bool) {
-	var reserved corev1.ResourceList
+// configured, by default the resources equal all reserved resources by the Reservation"). A list that names
+// nothing the reservation reserves is not covered by the documentation: then the statement is taken as worded
+// (all reserved resources). ok=false only for an unparsable annotation.
+func c05Reserved(res *schedulingv1alpha1.Reservation) corev1.ResourceList {
 	if res.Status.Phase == schedulingv1alpha1.ReservationAvailable && res.Status.NodeName != "" {
-		reserved = res.Status.Allocatable
-	} else if res.Spec.Template != nil {
-		reserved = c05PodRequests(&corev1.Pod{Spec: res.Spec.Template.Spec})
+		return res.Status.Allocatable
 	}
+	if res.Spec.Template != nil {
+		return c05PodRequests(&corev1.Pod{Spec: res.Spec.Template.Spec})
+	}
+	return nil
+}
+
+func c05Dims(res *schedulingv1alpha1.Reservation) (dims map[corev1.ResourceName]bool, ok bool) {
+	reserved := c05Reserved(res)
 	dims = map[corev1.ResourceName]bool{}
 	for n := range reserved {
 		dims[n] = true
@@ -413,9 +419,49 @@ func c05Dims(res *schedulingv1alpha1.Reservation) (dims map[corev1.ResourceName]
 		}
 	}
 	if len(narrowed) == 0 {
-		return dims, false
+		// The list names nothing the reservation reserves (a resource it does not hold, a mis-cased name).
+		// The documentation of the annotation does not say what that means, so the statement applies as it is
+		// worded: the reservation is Restricted and its reserved dimensions are the resources it reserves.
+		return dims, true
 	}
 	return narrowed, true
+}
+
+// c05OptionsClass: how the restricted-options annotation of a Restricted reservation relates to what it
+// reserves ("" for other policies): none / empty / subset / partial / disjoint (incl. mis-cased names).
+func c05OptionsClass(res *schedulingv1alpha1.Reservation) string {
+	if res == nil || res.Spec.AllocatePolicy != schedulingv1alpha1.ReservationAllocatePolicyRestricted {
+		return ""
+	}
+	s := res.Annotations[apiext.AnnotationReservationRestrictedOptions]
+	if s == "" {
+		return "none"
+	}
+	var opt struct {
+		Resources []corev1.ResourceName `json:"resources"`
+	}
+	if err := json.Unmarshal([]byte(s), &opt); err != nil {
+		return "unparsable"
+	}
+	if len(opt.Resources) == 0 {
+		return "empty"
+	}
+	reserved := c05Reserved(res)
+	in, out := 0, 0
+	for _, n := range opt.Resources {
+		if _, ok := reserved[n]; ok {
+			in++
+		} else {
+			out++
+		}
+	}
+	switch {
+	case in == 0:
+		return "disjoint"
+	case out > 0:
+		return "partial"
+	}
+	return "subset"
 }
 
 func c05RL(rl corev1.ResourceList) string {
@@ -568,32 +614,74 @@ func c05GenReservation(r *kit.Rand) *schedulingv1alpha1.Reservation {
 	return res
 }
 
-// c05GenOptions sets / replaces / removes the restricted-options annotation; listed resources always include at
-// least one reserved resource (otherwise the documentation does not determine the dimensions).
-func c05GenOptions(r *kit.Rand, res *schedulingv1alpha1.Reservation) {
+// c05GenOptions sets / replaces / removes the restricted-options annotation and returns the class of what it
+// wrote: "none" (annotation removed), "empty" (no resources configured), "subset" (only reserved resources),
+// "partial" (reserved resources plus names the reservation does not reserve), "duplicates", "disjoint" (a
+// non-empty list naming nothing the reservation reserves, e.g. a resource it does not hold) and "miscased"
+// (disjoint by a wrong case: "CPU", "Memory").
+func c05GenOptions(r *kit.Rand, res *schedulingv1alpha1.Reservation) string {
 	if res.Annotations == nil {
 		res.Annotations = map[string]string{}
 	}
-	if r.Pct(45) {
+	if r.Pct(40) {
 		delete(res.Annotations, apiext.AnnotationReservationRestrictedOptions)
-		return
+		return "none"
 	}
 	reserved := c05PodRequests(&corev1.Pod{Spec: res.Spec.Template.Spec})
-	var names []corev1.ResourceName
+	var names, foreign []corev1.ResourceName
 	for _, n := range c05ResNames {
 		if _, ok := reserved[n]; ok {
 			names = append(names, n)
+		} else {
+			foreign = append(foreign, n)
 		}
+	}
+	foreign = append(foreign, "nvidia.com/gpu", "hugepages-2Mi")
+	if len(names) == 0 {
+		return "none"
 	}
 	opt := &apiext.ReservationRestrictedOptions{}
 	first := kit.Pick(r, names)
-	opt.Resources = append(opt.Resources, first)
-	for _, n := range c05ResNames {
-		if n != first && r.Pct(30) {
-			opt.Resources = append(opt.Resources, n)
+	class := ""
+	switch r.Weighted(44, 8, 12, 10, 14, 12) {
+	case 0:
+		class = "subset"
+		opt.Resources = append(opt.Resources, first)
+		for _, n := range names {
+			if n != first && r.Pct(30) {
+				opt.Resources = append(opt.Resources, n)
+			}
+		}
+	case 1:
+		class = "empty"
+		opt.Resources = []corev1.ResourceName{}
+	case 2:
+		class = "partial"
+		opt.Resources = append(opt.Resources, kit.Pick(r, foreign), first)
+		if r.Bool() {
+			opt.Resources = append(opt.Resources, "CPU")
+		}
+	case 3:
+		class = "duplicates"
+		opt.Resources = append(opt.Resources, first, first)
+		if r.Bool() {
+			opt.Resources = append(opt.Resources, kit.Pick(r, names), first)
+		}
+	case 4:
+		class = "disjoint"
+		opt.Resources = append(opt.Resources, kit.Pick(r, foreign))
+		if r.Bool() {
+			opt.Resources = append(opt.Resources, kit.Pick(r, foreign))
+		}
+	default:
+		class = "miscased"
+		opt.Resources = append(opt.Resources, kit.Pick(r, []corev1.ResourceName{"CPU", "Memory", "Cpu"}))
+		if r.Bool() {
+			opt.Resources = append(opt.Resources, "MEMORY")
 		}
 	}
 	_ = apiext.SetReservationRestrictedOptions(res, opt)
+	return class
 }
 
 type c05LPod struct {
@@ -618,6 +706,9 @@ func c05CheckLedger(c *kit.Case, where string, ri *ReservationInfo, res *schedul
 	if !ok {
 		c.Count("ledger_dims_undetermined", 1)
 		return
+	}
+	if cl := c05OptionsClass(res); cl != "" && len(assigned) > 0 {
+		c.Count("ledger_checks_assigned_options_"+cl, 1)
 	}
 	want := corev1.ResourceList{}
 	for _, p := range assigned {
@@ -757,7 +848,9 @@ func TestVerifC05RInfoLedger(t *testing.T) {
 						res.Spec.AllocatePolicy = kit.Pick(r, []schedulingv1alpha1.ReservationAllocatePolicy{schedulingv1alpha1.ReservationAllocatePolicyDefault,
 							schedulingv1alpha1.ReservationAllocatePolicyAligned, schedulingv1alpha1.ReservationAllocatePolicyRestricted})
 					case 3: // restricted options
-						c05GenOptions(r, res)
+						if cl := c05GenOptions(r, res); len(assigned) > 0 && res.Spec.AllocatePolicy == schedulingv1alpha1.ReservationAllocatePolicyRestricted {
+							c.Count("op_update_options_with_assigned_"+cl, 1)
+						}
 					default: // phase
 						if res.Status.Phase == schedulingv1alpha1.ReservationAvailable {
 							res.Status.Phase = kit.Pick(r, []schedulingv1alpha1.ReservationPhase{schedulingv1alpha1.ReservationSucceeded, schedulingv1alpha1.ReservationFailed})
